@@ -10,6 +10,8 @@ from __future__ import annotations
 import unicodedata
 from fractions import Fraction
 
+from .core import flag
+
 # the eight teletext alpha colours at full intensity (ETS 300 706), index = control code
 _RGB = {(0, 0, 0): 0, (255, 0, 0): 1, (0, 255, 0): 2, (255, 255, 0): 3, (0, 0, 255): 4, (255, 0, 255): 5,
         (0, 255, 255): 6, (255, 255, 255): 7}
@@ -83,7 +85,7 @@ class _Cells:
           st[2] = 1 if fs is styles.FontStyleType.italic else 0
         td = ch.get_style(styles.StyleProperties.TextDecoration)
         if td is not None:
-          st[3] = 1 if td.underline else 0
+          st[3] = flag(td.underline)
         self.walk(ch, tuple(st))
 
 
